@@ -62,4 +62,50 @@ def writeAllVectored (bufs : List Bytes) (script : List Resp) : Result :=
   | none => ⟨.panic, [], 0, []⟩   -- unreachable (advance _ 0 never fails); kept total
   | some slices => loop script slices [] 0 []
 
+
+/-! ## Entry level and stream level
+
+`EntryWriter::finish` (emf.rs) emits the lines of one entry one after the other, each with its own
+`write_all_vectored(buf, output)?` — the first error ends the entry (`?`), the remaining lines are
+not attempted. A formatter-backed stream (`FormattedEntryIoStream::next`) does this entry after
+entry on the same `io::Write`, whatever the result of the previous entry was. The writer's script
+is consumed call by call: what is left for the next line / entry is `script.drop calls`. -/
+
+structure EntryResult where
+  outcome : Outcome
+  /-- every byte the writer accepted for this entry, in order -/
+  accepted : Bytes
+  /-- `write_vectored` calls made for this entry -/
+  calls : Nat
+  /-- slice lists offered at each of those calls -/
+  offered : List (List Bytes)
+  /-- number of lines written completely -/
+  linesDone : Nat
+  deriving Repr
+
+/-- one entry = its lines in emission order; a line = the slices handed to `write_all_vectored` -/
+abbrev Entry := List (List Bytes)
+
+def writeLines : Entry → List Resp → EntryResult
+  | [], _ => ⟨.ok, [], 0, [], 0⟩
+  | l :: ls, script =>
+    let r := writeAllVectored l script
+    match r.outcome with
+    | .ok =>
+      let rest := writeLines ls (script.drop r.calls)
+      ⟨rest.outcome, r.accepted ++ rest.accepted, r.calls + rest.calls, r.offered ++ rest.offered, rest.linesDone + 1⟩
+    | o => ⟨o, r.accepted, r.calls, r.offered, 0⟩
+
+def Entry.bytes (e : Entry) : Bytes := (e.map List.flatten).flatten
+
+/-- a stream of entries over one writer; every entry is attempted, whatever happened before -/
+def writeEntries : List Entry → List Resp → List EntryResult
+  | [], _ => []
+  | e :: es, script =>
+    let r := writeLines e script
+    r :: writeEntries es (script.drop r.calls)
+
+/-- everything the writer received, in order -/
+def streamBytes (rs : List EntryResult) : Bytes := (rs.map (·.accepted)).flatten
+
 end Vectored
